@@ -727,10 +727,10 @@ type Manager struct {
 
 	restartMut sync.Mutex
 	restart    chan struct{}
-	tasks   []*Task
-	updates chan uint64
-	pgp     *pgxpool.Pool
-	conf    config.Root
+	tasks      []*Task
+	updates    chan uint64
+	pgp        *pgxpool.Pool
+	conf       config.Root
 }
 
 func NewManager(ctx context.Context, pgp *pgxpool.Pool, conf config.Root) *Manager {
